@@ -130,7 +130,10 @@ def register(K):
 
     K.contract("fickle.Opcode.has_data", params="self: fickle.Opcode", returns="bool", pure=True, ensures=["result == (self._data is not None)"])
     K.contract("fickle.Opcode.data", params="self: fickle.Opcode", returns="bytes", pure=True, may_raise=["NotImplementedError", "Exception"],
+               may_raise_if="self._data is None",
                ensures=["result == DATA(self)"])
+    K.contract("fickle.Opcode.data.setter", params="self: fickle.Opcode, value: bytes", modifies=["self._data"], allocates=False,
+               ensures=["self._data == value"])
     K.contract("fickle.Opcode.encode", params="self: fickle.Opcode", returns="bytes", pure=True, may_raise=["NotImplementedError", "Exception"],
                ensures=["result == ENCODED(self)"],
                notes="ENCODED names what encode() returns for this opcode object; what it is per opcode class is C15")
